@@ -70,6 +70,9 @@ func runC08(c *Checker) {
 	// "keeps decrypting to exactly what was written" needs the record to reach the peer byte-exact
 	// whatever the writer does (partial writes, retries): the framing/flush obligations of C16
 	importLayers(c, "C16")
+	// ... and what the reader is handed is what was decrypted: the stream adapters on top of
+	// ReadMessage (retained tails, counts, session reset - C15) must not drop or repeat plaintext
+	importLayers(c, "C15")
 	ruleNARROW(c)
 	w := c.w
 	enc := mboxFunc(c, "(*mailbox.cipherState).Encrypt")
